@@ -182,7 +182,7 @@ def add_fails(sym, recorded_before, reason):
     sym.check("table-as-before", after == before)
 
 
-OPTIONS = ["images/boot.iso", "images/efiboot.img", "LiveOS/squashfs.img"]
+CURRENT_OPTIONS = ["images/boot.iso", "images/efiboot.img", "LiveOS/squashfs.img"]
 
 
 # relative keys of a pre-productmd (header-less, version 0.0) tree: keys that hold an '/os/' component next to the plain tail path
@@ -192,7 +192,7 @@ LEGACY_OPTIONS = ["images/boot.iso", "x86_64/os/images/boot.iso", "a/os/b/os/ima
 def read_section(sym, kinds, n_bare, legacy=False):
     """[checksums]: every path gets exactly its own (type, value); bare digests are typed by length or rejected.
     legacy: the section belongs to a version 0.0 tree (only absolute keys are rewritten there; relative ones are kept as they are)"""
-    OPTIONS = LEGACY_OPTIONS if legacy else globals()["OPTIONS"]
+    OPTIONS = LEGACY_OPTIONS if legacy else CURRENT_OPTIONS
     p = SortedConfigParser()
     p.add_section("checksums")
     want = {}
@@ -303,6 +303,7 @@ def jobs(tier, seed):
 
 
 META = {
+    "pinned_models": True,
     "expected_covers": {"add_fails": ["called"], "digest_after_rewrite": ["computed"], "digest_of_file": ["computed"], "add_computed": ["computed"], "add_path": ["called"], "read_section": ["read", "accepted"], "written_read_back": ["written", "reloaded"], "image_add_checksum": ["called"]},
     "assumptions": [
         "compute_checksum: the file has a symbolic size up to 3 MiB + 2 (thorough 5 MiB + 2) and unmodelled content; hashlib is uninterpreted - what is decided is that the library "
